@@ -35,6 +35,10 @@ mod c07b;
 #[path = "/verif/harness/daemon/c08.rs"]
 mod c08;
 
+#[cfg(verif_c08)]
+#[path = "/verif/harness/daemon/c08b.rs"]
+mod c08b;
+
 #[cfg(verif_c09)]
 #[path = "/verif/harness/daemon/c09.rs"]
 mod c09;
